@@ -584,6 +584,15 @@ func c14Protected(rec *c14Rec) ([][2]int, bool) {
 	for i, e := range elems {
 		out = append(out, c14Range(e, skip[i]))
 	}
+	if rec.spec.ck == c14Envelope {
+		// the unused-bits octet of the two BIT STRINGs (public key, encrypted scalar) is part of the value DER gives
+		// the string - a count of 1..7 over zero tail bits denotes a shorter bit string, not the same one - so a
+		// byte-level alteration of it is an alteration of the protected value. (The point-format octet behind it
+		// stays excluded: 04 -> 06/07 names the same point.)
+		for _, e := range elems[len(elems)-2:] {
+			out = append(out, [2]int{e.Off + e.HdrLen, e.Off + e.HdrLen + 1})
+		}
+	}
 	if rec.spec.ck == c14CFCA {
 		// the certificate's public key: X||Y behind the point-format octet
 		off := bytes.Index(rec.bytes, rec.key.pub)
